@@ -195,10 +195,14 @@ def plan(tier, seed):
             for picks, case in explore.explore(_driver_for(k, rname), bound=b, stats=st):
                 items.append(case)
             per[f"k{k}"] = per.get(f"k{k}", 0) + st.leaves - n0
-    from vf.props import c07_fnconst
+    from vf.props import c07_fnconst, c07_stages
     fc = c07_fnconst.plan_items()
     items.extend(fc)
     per["fnconst"] = len(fc)
+    sg_ = c07_stages.plan_items(tier)
+    items.extend(sg_)
+    per["stages"] = len(sg_)
+    fc = fc + sg_
     d = st.as_dict()
     d["states"] += len(fc) + 1
     d["transitions"] += len(fc)
@@ -613,6 +617,9 @@ def execute(item):
     if item.get("fam") == "fnconst":
         from vf.props import c07_fnconst
         return c07_fnconst.execute(item)
+    if item.get("fam") == "stages":
+        from vf.props import c07_stages
+        return c07_stages.execute(item)
     ev = _evaluate(item)
     nkey = "|".join([item["rule"], "+".join(f"{a}:{b}" for a, b in item["blocks"]), item["extra"], item["meta"],
                      item["clash"]])
